@@ -129,12 +129,94 @@ theorem qca_dilute_limit (t : ℝ → ℝ) (r k0 : ℝ) (e0 es : Cx ℝ) (h0 : e
   rw [qcaKs_closed f r (t f) k0 e0 es hfne' h0', toC_qcaBracket]
   field_simp
 
+/-- every stickiness: `compute_t` returns `0` for `stickiness = inf` and, from its first branch, the smaller root
+    `shsTSmall τ f`, for which `t(f)·f → 0` (any `τ ≥ 0`); hence the limit of `qca_dilute_limit` holds with the very `t` the
+    code uses -/
+theorem qca_dilute_limit_every_stickiness (tau r k0 : ℝ) (e0 es : Cx ℝ) (htau : 0 ≤ tau) (h0 : e0 ≠ czero) :
+    (∀ f : ℝ, shsComputeT none f = .ok 0) ∧
+    (∀ f : ℝ, ¬ (-(tau + f / (1 - f)) * -(tau + f / (1 - f)) - 4 * (f / 12) * ((1 + f / 2) / TheoryLimits.sq (1 - f)) < 0) →
+        ¬ (1 + 2 * f < shsTSmall tau f * f * (1 - f)) → shsComputeT (some tau) f = .ok (shsTSmall tau f)) ∧
+    Tendsto (fun f => qcaKsRaw f r (shsTSmall tau f) k0 e0 es / f) (𝓝[≠] 0)
+      (𝓝 (2 * Cx.abs2 (clausius e0 es) * cube r * pow4 k0
+            * Cx.abs2 (cone + Cx.smul (cube (k0 * r)) (⟨0, 2 / 3⟩ * clausius e0 es)))) ∧
+    Tendsto (fun f => qcaKsRaw f r 0 k0 e0 es / f) (𝓝[≠] 0)
+      (𝓝 (2 * Cx.abs2 (clausius e0 es) * cube r * pow4 k0
+            * Cx.abs2 (cone + Cx.smul (cube (k0 * r)) (⟨0, 2 / 3⟩ * clausius e0 es)))) := by
+  refine ⟨fun f => rfl, ?_, qca_dilute_limit _ r k0 e0 es h0 (shsTSmall_tendsto tau htau), ?_⟩
+  · intro f h1 h2
+    simp only [shsComputeT, shsTSmall] at h2 ⊢
+    rw [if_neg h1, if_neg h2]
+  · exact qca_dilute_limit (fun _ => 0) r k0 e0 es h0 (by simp)
+
+/-- for a loss-free background `e0 = a ≥ 0` the QCA wavenumber is `k·√a` and the leading factor of the limit is the
+    Rayleigh value per unit fractional volume of `rayleigh.py` -/
+theorem qca_limit_is_rayleigh (p nu r a : ℝ) (es : Cx ℝ) (ha : 0 ≤ a) :
+    2 * Cx.abs2 (clausius ⟨a, 0⟩ es) * cube r * pow4 (qcaK0 p nu ⟨a, 0⟩)
+      = rayleighPerVolume r (k0OfLambda p nu) ⟨a, 0⟩ es := by
+  unfold qcaK0 rayleighPerVolume
+  rw [csqrt_real_re a ha]
+  generalize Cx.abs2 (clausius ⟨a, 0⟩ es) = Y
+  generalize k0OfLambda p nu = k
+  have h : Real.sqrt a * Real.sqrt a = a := Real.mul_self_sqrt ha
+  have h4 : Real.sqrt a * Real.sqrt a * (Real.sqrt a * Real.sqrt a) = a * a := by rw [h]
+  simp only [pow4, Cx.abs2]
+  linear_combination (2 * Y * cube r * (k * k * k * k)) * h4
+
 /-- the correction factor of the limit, exactly: `1 − (4/3) x³ Im y + (4/9) x⁶ |y|²` with `x = k0 r` -/
 theorem qca_correction_factor (x3 : ℝ) (y : Cx ℝ) :
     Cx.abs2 (cone + Cx.smul x3 (⟨0, 2 / 3⟩ * y)) = 1 - 4 / 3 * x3 * y.im + 4 / 9 * (x3 * x3) * Cx.abs2 y := by
   show Cx.abs2 (Cx.add cone (Cx.smul x3 (Cx.mul ⟨0, 2 / 3⟩ y))) = _
   simp only [Cx.abs2, Cx.add, Cx.smul, Cx.mul, cone]
   ring
+
+/-! ### DMRT QCA-CP short range (proved part) -/
+
+/-- `ks = albedo · beta` does not depend on the absorption: whenever the code's division by `2 Im √Eeff` is defined,
+    `ks = f · (2/9) k (k r)³ |G|² S` with `G = (es − e0)/(1 + (es − e0)(1 − f)/(3 Eeff0))`; and at the dilute values
+    (`f = 0`, `Eeff0 = e0`) the per-volume coefficient is the Rayleigh one -/
+theorem qcacp_closed_form_partial (f r t kv : ℝ) (e0 es E0 : Cx ℝ) :
+    ((csqrt (qcacpEeffOf f r t kv e0 es E0)).im ≠ 0 →
+      qcacpKsOf f r t kv e0 es E0 = f * (2 / 9 * kv * cube (kv * r) * Cx.abs2 (qcacpG f e0 es E0) * shsS f t)) ∧
+    (e0 ≠ czero → es + Cx.smul 2 e0 ≠ czero →
+      2 / 9 * kv * cube (kv * r) * Cx.abs2 (qcacpG 0 e0 es e0) * shsS 0 t = rayleighPerVolume r kv e0 es) := by
+  constructor
+  · intro hs
+    unfold qcacpKsOf shsS
+    simp only []
+    by_cases hD : TheoryLimits.sq (1 + 2 * f - t * f * (1 - f)) = 0
+    · simp [hD]
+    · field_simp
+  · intro h0 hs
+    have h0' : toC e0 ≠ 0 := (Mixing.ne_czero_iff _).1 h0
+    have hs' : toC es + 2 * toC e0 ≠ 0 := by
+      have := (Mixing.ne_czero_iff _).1 hs
+      simpa using this
+    have hG : toC (qcacpG 0 e0 es e0) = 3 * toC e0 * ((toC es - toC e0) / (toC es + 2 * toC e0)) := by
+      unfold qcacpG
+      simp only [Mixing.toC_div, Mixing.toC_add, Mixing.toC_sub, Mixing.toC_smul, Mixing.toC_cone]
+      push_cast
+      have h3 : (3 : ℂ) * toC e0 ≠ 0 := mul_ne_zero (by norm_num) h0'
+      have hden : (1 : ℂ) + (1 - 0) * ((toC es - toC e0) / (3 * toC e0)) = (toC es + 2 * toC e0) / (3 * toC e0) := by
+        field_simp; ring
+      rw [hden]
+      field_simp
+    unfold rayleighPerVolume
+    rw [abs2_eq, hG, abs2_clausius, abs2_eq]
+    simp only [map_mul, map_div₀, shsS, pow4, TheoryLimits.sq, cube]
+    have h3 : Complex.normSq (3 : ℂ) = 9 := by
+      rw [show (3 : ℂ) = ((3 : ℝ) : ℂ) by push_cast; ring, Complex.normSq_ofReal]; norm_num
+    rw [h3]
+    have hN : Complex.normSq (toC es + 2 * toC e0) ≠ 0 := by rwa [Ne, Complex.normSq_eq_zero]
+    field_simp
+    ring
+
+/-- NOT PROVED (stated only): `Ks_QCACP(f)/f → Rayleigh per volume` as `f → 0⁺`.  Proved above: the closed form and its value
+    at (`f = 0`, `Eeff0 = e0`).  Missing: continuity at `f = 0` of the root `Eeff0(f)` that the code selects (principal square
+    root of a discriminant tending to `((es + 2 e0)/3)²`, then the branch `Eeff0.real < 1`, which sits exactly on its
+    threshold for an air background `e0 = 1`), and `Im √Eeff ≠ 0` near 0.  The oracle measures it on the implementation. -/
+def qcacp_dilute_limit_full : Prop :=
+  ∀ (r t kv : ℝ) (e0 es : Cx ℝ), e0 ≠ czero → es + Cx.smul 2 e0 ≠ czero → 1 ≤ e0.re → e0.re < es.re → 0 < es.im → 0 < kv * r →
+    Tendsto (fun f => qcacpKs f r t kv e0 es / f) (𝓝[>] 0) (𝓝 (rayleighPerVolume r kv e0 es))
 
 /-! ### effective permittivity at `f = 0` and `f = 1` -/
 
